@@ -54,6 +54,11 @@ CLAIMED["C13"] = dict(engine="crash", design="DESIGN.md 5 C13",
   note="Trusted: Coq kernel; Crash.v/Db.v models; hooks (cargo feature verif, add-only commit); extraction; harness (child processes, libc::_exit); python judge. A power cut (as opposed to a process kill) is out of scope.",
   technique="Coq proof on a persistent-step model + fault enumeration at every hook point with membership in the model's allowed set")
 
+CLAIMED["C15"] = dict(engine="refs", design="DESIGN.md 5 C15",
+  text="PARTIAL proof with a KNOWN FINDING. Proved: the bytes at a returned offset never change under any later operations (append-only log), and outside the known class (no growth step relocates the mapping) every reference keeps its address; the known class is provably non-empty (witness lemma): MmapAppend::resize remaps with may_move(true), so the property as stated is false of the faithful model and of the code (reproduced on every run in the debug profile: KNOWN-FINDING line, known_findings.txt class remap-moves-mapping). The check still raises a VIOLATION for any other way a reference changes: bytes changed, address moved without growth, by-id path at a different address. Address stability itself is an observation of the OS, not a theorem.",
+  note="Trusted: Coq kernel; Refs.v/Db.v; harness comparing addresses of fresh lookups (never dereferencing stale references); the kernel's mremap behaviour is the oracle flag of the model.",
+  technique="Coq proof (log immutability; address stability relative to a may-move oracle, with refutation witness) + address/bytes observation on the implementation; known-findings file")
+
 checks = []
 for pid, c in sorted(CLAIMED.items()):
     checks.append({
